@@ -63,7 +63,9 @@ Obs ==
             LET none == r.ll = -1 /\ r.rr = -1
                 expectRight == IF wl # -1 THEN wr ELSE IF snap.l # -1 THEN snap.l ELSE -1
                 bad == (IF ~none /\ r.rr > expectRight THEN {"C05_RangeBeyondWritten"} ELSE {})
-                       \cup (IF (none /\ expectRight # -1 /\ (wl # -1 \/ snap.done)) \/ (~none /\ r.rr < expectRight)
+                       \* (a cache may have collected a complete snapshot that exceeds its size limit - collection is not
+                       \*  prescribed - but what a live log writer has written last is always in range)
+                       \cup (IF (none /\ expectRight # -1 /\ wl # -1) \/ (~none /\ r.rr < expectRight)
                              THEN {"C05_WrittenBytesNotInRange"} ELSE {})
                        \cup (IF ~none /\ r.ll > r.rr THEN {"C05_RangeInverted"} ELSE {})
                        \cup (IF ~none /\ wl # -1 /\ r.ll < wl /\ r.ll # snap.l THEN {"C05_RangeStartsBeforeWritten"} ELSE {})
@@ -89,8 +91,10 @@ Obs ==
        [] r.o = "deliver" ->     \* reader r delivered n bytes (match = all equal Byte(h, pos + i)); want = bytes it should be able to deliver
             LET rd == readers[r.r]
                 stale == rd.epoch # epoch
-                bad == (IF r.n > 0 /\ ~r.match THEN {"C05_ReaderDeliveredOtherBytes"} ELSE {})
-                       \cup (IF r.n > 0 /\ stale THEN {"C05_DeliveredAfterInvalidation"} ELSE {})
+                \* a live reader delivers the current history; an invalidated one may still hand over bytes it had
+                \* pinned (its own history at those offsets) before it ends, but never anything else
+                bad == (IF r.n > 0 /\ ~stale /\ ~r.match THEN {"C05_ReaderDeliveredOtherBytes"} ELSE {})
+                       \cup (IF r.n > 0 /\ stale /\ ~r.own THEN {"C05_DeliveredAfterInvalidation"} ELSE {})
                        \cup (IF ~stale /\ rd.pos + r.n > wr THEN {"C05_DeliveredBeyondWritten"} ELSE {})
                        \* a reader may END (writer replacement, reset); one that is still open must keep following the writer
                        \cup (IF ~stale /\ r.n < r.want /\ ~r.ended THEN {"C05_ReaderStalled"} ELSE {})
